@@ -256,6 +256,42 @@ fn c16(suffix: &str, args: &[Val]) -> Val {
             }
             c("c16", vec![b(o.ab()), res(oc), b(sf.ab()), res(sc), b(back.ab())])
         }
+        "tbu" | "tbw" => {
+            let x = if suffix == "tbu" { TypedPathBuf::from_unix(p) } else { TypedPathBuf::from_windows(p) };
+            let u = suffix == "tbu";
+            let (o, oc, sf, sc) = if u {
+                (x.with_windows_encoding(), x.with_windows_encoding_checked(), x.with_unix_encoding(), x.with_unix_encoding_checked())
+            } else {
+                (x.with_unix_encoding(), x.with_unix_encoding_checked(), x.with_windows_encoding(), x.with_windows_encoding_checked())
+            };
+            let back = if u { o.with_unix_encoding() } else { o.with_windows_encoding() };
+            let okv = o.is_unix() != u && sf.is_unix() == u && back.is_unix() == u
+                && oc.as_ref().map(|r| r.is_unix() != u).unwrap_or(true) && sc.as_ref().map(|r| r.is_unix() == u).unwrap_or(true);
+            if !okv {
+                return c("wrongvariant", vec![]);
+            }
+            c("c16", vec![b(o.ab()), res(oc), b(sf.ab()), res(sc), b(back.ab())])
+        }
+        "tb8u" | "tb8w" => {
+            let st = match std::str::from_utf8(p) {
+                Ok(x) => x,
+                Err(_) => return not_utf8(),
+            };
+            let u = suffix == "tb8u";
+            let x = if u { Utf8TypedPathBuf::from_unix(st) } else { Utf8TypedPathBuf::from_windows(st) };
+            let (o, oc, sf, sc) = if u {
+                (x.with_windows_encoding(), x.with_windows_encoding_checked(), x.with_unix_encoding(), x.with_unix_encoding_checked())
+            } else {
+                (x.with_unix_encoding(), x.with_unix_encoding_checked(), x.with_windows_encoding(), x.with_windows_encoding_checked())
+            };
+            let back = if u { o.with_unix_encoding() } else { o.with_windows_encoding() };
+            let okv = o.is_unix() != u && sf.is_unix() == u && back.is_unix() == u
+                && oc.as_ref().map(|r| r.is_unix() != u).unwrap_or(true) && sc.as_ref().map(|r| r.is_unix() == u).unwrap_or(true);
+            if !okv {
+                return c("wrongvariant", vec![]);
+            }
+            c("c16", vec![b(o.ab()), res(oc), b(sf.ab()), res(sc), b(back.ab())])
+        }
         "t8u" | "t8w" => {
             let st = match std::str::from_utf8(p) {
                 Ok(x) => x,
@@ -373,6 +409,14 @@ macro_rules! fam {
             "tw" => $f::<TW>($args),
             "t8u" => $f::<T8U>($args),
             "t8w" => $f::<T8W>($args),
+            "bu" => $f::<BU>($args),
+            "bw" => $f::<BW>($args),
+            "b8u" => $f::<B8U>($args),
+            "b8w" => $f::<B8W>($args),
+            "tbu" => $f::<TBU>($args),
+            "tbw" => $f::<TBW>($args),
+            "tb8u" => $f::<TB8U>($args),
+            "tb8w" => $f::<TB8W>($args),
             "pu" => $f::<PB>($args),
             "p8" => $f::<P8>($args),
             #[cfg(all(feature = "std", unix))]
@@ -395,6 +439,10 @@ pub fn dispatch(op: &str, args: &[Val]) -> Val {
                 None => (suffix, ""),
             };
             let bytefam = if fam.ends_with('w') || fam.starts_with('w') { "w" } else { "u" };
+            if fam.starts_with("tb") && n2 == "c16" {
+                // owned runtime-typed buffers re-dispatch the conversions themselves
+                return t2(c16(fam, args), dispatch(&format!("{}.{}", n2, bytefam), args));
+            }
             t2(dispatch(suffix, args), dispatch(&format!("{}.{}", n2, bytefam), args))
         }
         // pair.<op> : the Unix byte family next to real std::path on the same arguments
